@@ -79,8 +79,9 @@ func (p *Project) cwd() string {
 // Opts are the library options and the entry point used.
 type Opts struct {
 	FixedSeed bool   `json:"fixed_seed,omitempty"`
-	Banned    []int  `json:"banned,omitempty"` // directive.Enumeration values
-	Entry     string `json:"entry,omitempty"`  // "path" (kit.NewJapi) or "file" (kit.NewJApiFromFile); default path
+	Banned    []int  `json:"banned,omitempty"`     // directive.Enumeration values
+	Entry     string `json:"entry,omitempty"`      // "path" (kit.NewJapi) or "file" (kit.NewJApiFromFile); default path
+	SplitBans bool   `json:"split_bans,omitempty"` // give the banned set as two WithBannedDirectives options
 }
 
 func (o Opts) options() []core.Option {
@@ -93,7 +94,13 @@ func (o Opts) options() []core.Option {
 		for _, b := range o.Banned {
 			dd = append(dd, directive.Enumeration(b))
 		}
-		oo = append(oo, core.WithBannedDirectives(dd...))
+		if o.SplitBans && len(dd) > 1 {
+			// the same set given as two options
+			h := len(dd) / 2
+			oo = append(oo, core.WithBannedDirectives(dd[:h]...), core.WithBannedDirectives(dd[h:]...))
+		} else {
+			oo = append(oo, core.WithBannedDirectives(dd...))
+		}
 	}
 	return oo
 }
@@ -598,4 +605,27 @@ func traceFold(vals ...uint64) {
 		traceAcc = (traceAcc ^ v) * 1099511628211
 	}
 	traceExecs++
+}
+
+// respellRoot gives the root another spelling of the same path now and then: "./" and "//"
+// components, or a path relative to the simulated working directory. Every spelling opens the
+// same file, so nothing about the project changes.
+func respellRoot(p *Project, r *rng) {
+	abs := p.absRoot()
+	dir, base := filepath.Dir(abs), filepath.Base(abs)
+	switch r.n(12) {
+	case 0:
+		p.Root = dir + "/./" + base
+	case 1:
+		p.Root = dir + "//" + base
+	case 2:
+		p.Cwd = dir
+		p.Root = "./" + base
+	case 3:
+		p.Cwd = dir
+		p.Root = base
+	case 4:
+		p.Cwd = filepath.Dir(dir)
+		p.Root = filepath.Base(dir) + "/" + base
+	}
 }
